@@ -455,6 +455,21 @@ Definition refresh_gen (null_guard by_value : bool) (cur : option config) (d : d
   end.
 Definition refresh (null_guard : bool) : option config -> doc -> option config := refresh_gen null_guard true.
 
+(* submitValidatorRegistrations / submitValidatorRegistrationsForAccounts with the configuration in
+   force, for the one validating account of the tie (account 1, public key 1): no configuration ->
+   nothing to do; executionConfig.ProposerConfig fails -> "Failed to generate registrations for
+   validator; continuing with the others"; otherwise one registration per relay of the answer, sent
+   to every relay whose address FetchBuilderClient accepts (an empty address is refused there).
+   Result: the relays that receive a registration. *)
+Definition reg_account : N := 1.
+Definition reg_pubkey : N := 1.
+Definition registration_round (c : option config) : outcome (list N) cfg_err :=
+  match lookup true c reg_account reg_pubkey with
+  | Ok l => Ok (filter (fun a => negb (a =? 0)) l)
+  | Err _ => Ok []
+  | Panic => Panic
+  end.
+
 Definition refresh_all (null_guard : bool) (cur : option config) (ds : list doc) : option config :=
   fold_left (refresh null_guard) ds cur.
 
